@@ -234,10 +234,11 @@ Theorem C13_reject_marker : forall toks, ~ has_marker toks ->
 Proof. exact no_marker_rejected. Qed.
 Print Assumptions C13_reject_marker.
 
-(* an out-of-range CRC / firmware id (OverflowError in exec_bf2instrs) is turned into
-   Bf3FileFormatError by emit_bf3comp like ValueError, IndexError and KeyError; TypeError is not *)
+(* an out-of-range CRC / firmware id (OverflowError in exec_bf2instrs) and a "##" header that
+   puts a string where an instruction's parameter dict is expected (TypeError) are turned into
+   Bf3FileFormatError by emit_bf3comp like ValueError, IndexError and KeyError *)
 Theorem C13_emit_catches : caught_emit EOverflow = true /\ caught_emit EValue = true /\
-  caught_emit EIndex = true /\ caught_emit EKey = true /\ caught_emit EType = false.
+  caught_emit EIndex = true /\ caught_emit EKey = true /\ caught_emit EType = true.
 Proof. exact emit_catches. Qed.
 Print Assumptions C13_emit_catches.
 
